@@ -27,6 +27,19 @@ def call_decoders():
     return [n for n in D.decoder_names() if n.startswith('BSC_') or n.startswith('MSC_')]
 
 
+def new_call_decoders():
+    """BSD / Mach decoders the tree under test registers that did not exist at the pinned commit (no frozen domain table): they are
+    fed plain numeric words; one that raises on them is counted as not judged, one that renders is held to the same positional rule."""
+    try:
+        from pykdebugparser.trace_handlers import bsd, mach
+        live = set(bsd.handlers) | set(mach.handlers)
+    except Exception:
+        return []
+    known = set(E.codes().values())
+    frozen = set(D.decoder_names())
+    return sorted(n for n in live if (n.startswith('BSC_') or n.startswith('MSC_')) and n in known and n not in frozen)
+
+
 def word_domains(name, tier):
     en = D.enums(name, 'se')
     doms = []
@@ -62,6 +75,9 @@ def prefix_events(name, s, kind):
         return [E.ev(name, 1, o)]
     if kind == 'stray-end':
         return [E.ev(name, 2, o)]
+    if kind == 'two-stray-ends':
+        # two ENDs of this call whose STARTs fell before the capture, with another record of the thread between them
+        return [E.ev(name, 2, o), E.ev('MACH_WAIT', 0, OTHER), E.ev(name, 2, (0, 0x9e9e, 0x9f9f, 0x9a9a))]
     if kind in ('other-thread-open', 'other-thread-crossing'):
         return [E.ev(name, 1, o, tid=2)]
     if kind == 'other-call-open':
@@ -119,6 +135,9 @@ def render(name, s, e, nlook, prefix=None):
     completed = 2 if prefix == 'other-thread-crossing' else 1
     if len(same) != completed:
         return None, f'{len(same)} traces of this call where {completed} START/END pair(s) completed'
+    closed = [t for t in out if t.ktraces[-1].eventid == evs[len(pre)].eventid and t.ktraces[-1].func_qualifier == 2]
+    if len(closed) != completed:
+        return None, f'{len(closed)} traces end with an END record of this call where {completed} START/END pair(s) completed'
     return E.stable_str(mine[0]), None
 
 
@@ -158,11 +177,11 @@ class C09(Check):
             'positions over 5 (quick) / 8 (thorough) corner values {0x1111(k+1), 0, 1, 0x7f, 2^31, 2^32-1, 2^63, 2^64-1}, '
             'enum-valued positions (frozen table) over every member, ioctl request over Darwin _IOC words - x 3 END tuples '
             '(success, failure, other values) with 0 lookups, every point with <=2 non-default words with 2 nested lookups, and every '
-            'point with <=1 non-default word preceded by {an earlier START of the same call whose END was lost, a stray END, the same '
+            'point with <=1 non-default word preceded by {an earlier START of the same call whose END was lost, a stray END, two stray ENDs with another record between them, the same '
             'call still open on another thread (parser built with a populated thread map; also crossing: A.START B.START A.END B.END), another call still open on the same thread, another call opened inside the window and still open at its END, two calls whose ENDs were lost, another call of the same thread that started before and ends inside the window (overlapping, not nested)} carrying words that never equal an '
             'enumerated one; windows whose nested lookups carry timestamps below the START tick and whose END carries the START tick; two consecutive calls per decoder read from v2 / v3 dump files whose records all carry the same timestamp; and one window per decoder with 5000 stand-alone same-thread records between START and END. '
             'Oracle: every integer-literal token at position k is one of the renderings {u64, i64, u32, i32 decimal; u64, u32 hex} of '
-            'START word k in every run; no numeric token beyond position 3; call part identical across END tuples. Distinct by '
+            'START word k in every run; no numeric token beyond position 3; call part identical across END tuples. BSD / Mach decoders the tree registers beyond those of the pinned commit are fed the numeric product and held to the same rule where they render. Distinct by '
             'construction; non-trivial = the rendering is call-style and shows at least one numeric token.')
     assumptions = ('symbolic tokens (enum names, flag lists, quoted paths) are not judged here (C11/C08 own them)',
                    'renderings set: decimal unsigned/signed 64 and 32 bit, hex 64 and low 32 bit')
@@ -171,7 +190,8 @@ class C09(Check):
         return {'decoders': len(call_decoders()), 'numeric_values_per_position': 5 if self.tier == 'quick' else 8}
 
     def shards(self):
-        return [('dec', ch) for ch in chunked(call_decoders(), 128)] + [('files', ch) for ch in chunked(call_decoders(), 8)]
+        return [('dec', ch) for ch in chunked(call_decoders(), 128)] + [('files', ch) for ch in chunked(call_decoders(), 8)] + \
+            [('new', ch) for ch in chunked(new_call_decoders(), 4)]
 
     def run_files(self, names, acc):
         """the same calls read from dump FILES (v2 and v3, one and two chunks) in which all records carry the SAME timestamp and
@@ -203,6 +223,18 @@ class C09(Check):
     def run_shard(self, desc, acc):
         if desc[0] == 'files':
             return self.run_files(desc[1], acc)
+        if desc[0] == 'new':
+            for name in desc[1]:
+                doms = [numeric_domain(k, self.tier) for k in range(4)]
+                for s_ in itertools.product(*doms):
+                    for nl in (0, 2):
+                        bad, call = judge(name, s_, nl)
+                        if bad and bad[0].startswith(('render-raised', 'trace-count')):
+                            acc.count('runs_of_decoders_added_after_the_pinned_commit_not_judged')
+                            acc.case(nontrivial=False, transitions=2)
+                            continue
+                        self._acc(acc, name, s_, nl, (bad[0] + ':decoder-added-after-the-pinned-commit', bad[1]) if bad else None, call)
+            return
         for name in desc[1]:
             doms = word_domains(name, self.tier)
             style = None
@@ -226,7 +258,7 @@ class C09(Check):
             for s in deviation_bounded(doms, 1):
                 if name in ('BSC_getsockopt', 'BSC_setsockopt') and s[1] in (1, 0xffff):
                     continue
-                for prefix in ('stale-start', 'stray-end', 'other-thread-open', 'other-thread-crossing', 'other-call-open', 'other-call-opened-inside', 'two-lost-ends-before', 'odd-timestamps', 'same-thread-crossing') + (('long-window',) if s == tuple(d[0] for d in doms) else ()):
+                for prefix in ('stale-start', 'stray-end', 'two-stray-ends', 'other-thread-open', 'other-thread-crossing', 'other-call-open', 'other-call-opened-inside', 'two-lost-ends-before', 'odd-timestamps', 'same-thread-crossing') + (('long-window',) if s == tuple(d[0] for d in doms) else ()):
                     nl = 2 if prefix == 'odd-timestamps' else 0
                     bad, call = judge(name, s, nl, prefix)
                     self._acc(acc, name, s, nl, (bad[0] + ':after-' + prefix, bad[1]) if bad else None, call, prefix)
